@@ -836,6 +836,10 @@ inline ConnectResult Transport::connectSync(const std::string &host, std::uint16
     // Woken by teardown. Do NOT erase pendingConnects (teardown owns and is
     // iterating the maps, L-NEW-1) and do NOT touch engine->close (engine is
     // being torn down, M-1). The guard decrements activeConnects on return.
+    // The entry stays registered but its waiter is gone: mark it so a connect
+    // completing before shutdownDrain does not erase it, and the drain's
+    // onClose for this sid is still suppressed (the caller never received it).
+    op->abandoned = true;
     return ConnectResult::err(
       TransportErrorInfo{TransportError::ShuttingDown, "transport shutting down"});
   }
